@@ -204,7 +204,7 @@ def instances(tier, seed):
     rnd = random.Random(seed)
     out = []
     full = tier != "quick"
-    mk = lambda name, h, params, **opts: out.append(dict(name=name, harness=h, fn=HARNESSES[h], params=params, opts=dict(dict(mode="inc", wall_s=900 if not full else 3000, max_paths=300000), **opts)))
+    mk = lambda name, h, params, **opts: out.append(dict(name=name, harness=h, fn=HARNESSES[h], params=params, opts=dict(dict(mode="inc", wall_s=900 if not full else 300, max_paths=300000), **opts)))
     # CUSIP check digit.  thorough: the alphanumeric space completely (split by the class of the first 3 characters);
     # quick: every class combination of the first 3 characters, 2 seed-rotated free positions, 3 seed-fixed classes
     for pat in _patterns(8, 3, "dl", "a"):
@@ -230,7 +230,7 @@ def instances(tier, seed):
     # cusip2isin: composition, on class patterns (quick: all digits, all letters, 2 seeded; thorough: first 4 free classes)
     pats = ["dddddddd", "llllllll"] + ["".join(rnd.choice("dl") for _ in range(8)) for _ in range(2)]
     if full:
-        pats = sorted(set(pats + ["".join(p) + "aa" for p in itertools.product("dl", repeat=6)]))
+        pats = sorted(set(pats + ["".join(p) + "aaaa" for p in itertools.product("dl", repeat=4)]))
     for pat in pats:
         mk(f"cusip2isin[{pat}]", "cusip2isin", dict(classes=pat))
     for pat in _patterns(6, 2, "dL", "S"):
@@ -243,7 +243,7 @@ def instances(tier, seed):
             # digits/letters fixed at 7 seed-rotated positions (at most 4 letters), 2 positions free:
             # 5 (quick) / 24 (thorough) seeded class patterns + the all-digit pattern
             pats = []
-            for _ in range(5 if not full else 24):
+            for _ in range(5 if not full else 12):
                 free = rnd.sample(range(9), 2)
                 letters = rnd.sample([i for i in range(9) if i not in free], rnd.choice([1, 2, 3, 4]))
                 pats.append("".join("a" if i in free else ("l" if i in letters else "d") for i in range(9)))
